@@ -97,7 +97,9 @@ def _build(d):
                 'orient': d.choice(['c', 'c', 'r'])}
     return {'k': 'XIRR', 'root': root, 'returns': rets,
             'dates': _dates(d, n + 1), 'mode': mode,
-            'orient': d.choice(['cc', 'cc', 'rr', 'rc', 'cr'])}
+            'orient': d.choice(['cc', 'cc', 'rr', 'rc', 'cr']),
+            # the optional third argument: an explicit first guess
+            'guess': d.choice([None, None, None, 0.05, 0.5, 1, 5, -0.5, 50])}
 
 
 def _dates(d, n):
@@ -358,11 +360,21 @@ def _irr(case, res):
         c2, r2, a2 = _place(dates, orient[1], 1)
         cells = dict(c1)
         cells.update(c2)
-        note = '=XIRR(%s,%s)' % (r1, r2)
+        guess = case.get('guess')
+        note = '=XIRR(%s,%s%s)' % (r1, r2, '' if guess is None
+                                    else ',%r' % guess)
         if case['mode'] == 'call':
-            o = lib.call_fn('XIRR', a1, a2)
+            o = (lib.call_fn('XIRR', a1, a2) if guess is None
+                 else lib.call_fn('XIRR', a1, a2, guess))
         else:
             o = lib.eval_formula(note, cells, addr='Sheet1!Z99')[0]
+        if guess is not None:
+            res.labels += ('explicit-guess',)
+            if o == ('E', '#NUM!'):
+                # from a far-off guess the iteration may fail to converge:
+                # #NUM! is a legitimate answer, a number that is no root not
+                res.labels += ('explicit-guess:no-convergence',)
+                return res
 
         def resid(x):
             return math.fsum(c / (1 + x) ** ((t - t0) / 365.0)
